@@ -45,12 +45,19 @@ def run(ctx):
     import os
     comp = gen.custom_target(os.path.join(os.path.dirname(os.path.dirname(os.path.dirname(os.path.abspath(__file__)))), 'triage', 'c13', 'comp.xml'),
                              'Comp', 'CP', second=False)
-    st, m, sc = tv.validate(ctx, 'Comp', target=comp, rid='R13.1', gid='R13.1')
-    progs += 1
-    for k in totals:
-        totals[k] += st[k]
-    samples.append({'schema': 'triage/c13/comp.xml (self-made)', 'stats': st})
-    ctx.units.add('verif:triage/c13/comp.xml')
+    tri = os.path.join(os.path.dirname(os.path.dirname(os.path.dirname(os.path.abspath(__file__)))), 'triage', 'c14')
+    # ... and the self-made schemas of C14 whose group definitions collide under the compiler's merge key (reuse across messages)
+    customs = [(comp, 'triage/c13/comp.xml'), (gen.custom_target(os.path.join(tri, 'share.xml'), 'Share', 'SH'), 'triage/c14/share.xml'),
+               (gen.custom_target(os.path.join(tri, 'collide.xml'), 'Collide', 'CO'), 'triage/c14/collide.xml'),
+               (gen.custom_target(os.path.join(tri, 'chain.xml'), 'Chain', 'CH'), 'triage/c14/chain.xml')]
+    gen.generate([t for t, _ in customs])
+    for t, label in customs:
+        st, m, sc = tv.validate(ctx, t['prefix'], target=t, rid='R13.1', gid='R13.1')
+        progs += 1
+        for k in totals:
+            totals[k] += st[k]
+        samples.append({'schema': label + ' (self-made)', 'stats': st})
+        ctx.units.add('verif:' + label)
     if ctx.tier == 'thorough':
         import glob
         stock = sorted(glob.glob(os.path.join(gen.REPO, 'schema', 'FIX*.xml'))) + sorted(glob.glob(os.path.join(gen.REPO, 'test', 'FIX44*.xml')))
